@@ -127,8 +127,10 @@ func (t *KernMethod) TransferGovernTokens(ctx contract.KContext) (*contract.Resp
 
 	// 查询receiver余额并更新, 保留receiver已有的锁定余额
 	receiverKey := utils.MakeAccountBalanceKey(string(receiverBuf))
-	receiverBalanceBuf, err := ctx.Get(utils.GetGovernTokenBucket(), []byte(receiverKey))
-	if err == nil {
+	if string(receiverBuf) == sender {
+		// 给自己转账: receiver即为已扣减过的sender, 否则后写入的旧余额会凭空增发amount
+		receiverBalance = senderBalance
+	} else if receiverBalanceBuf, err := ctx.Get(utils.GetGovernTokenBucket(), []byte(receiverKey)); err == nil {
 		json.Unmarshal(receiverBalanceBuf, receiverBalance)
 	}
 	receiverBalance.TotalBalance.Add(receiverBalance.TotalBalance, amount)
@@ -142,7 +144,7 @@ func (t *KernMethod) TransferGovernTokens(ctx contract.KContext) (*contract.Resp
 	}
 
 	// 更新receiver余额
-	receiverBalanceBuf, _ = json.Marshal(receiverBalance)
+	receiverBalanceBuf, _ := json.Marshal(receiverBalance)
 	err = ctx.Put(utils.GetGovernTokenBucket(), []byte(receiverKey), receiverBalanceBuf)
 	if err != nil {
 		return nil, fmt.Errorf("transfer gov tokens failed, update receriver's balance")
